@@ -359,9 +359,11 @@ package sqlittle
 //@   ensures [bounds] result ==> len(indexes) <= len(key) && (forall k int :: 0 <= k && k < len(indexes) ==> 0 <= indexes[k] && indexes[k] < len(r))
 //@   ensures [copied] result ==> (forall k int :: 0 <= k && k < len(indexes) ==> key[k].V == r[indexes[k]] && key[k].Collate == old(key[k].Collate) && key[k].Desc == old(key[k].Desc))
 //@   ensures [rest] forall k int :: len(indexes) <= k && k < len(key) ==> key[k] == old(key[k])
+//@   ensures [flagskept] forall k int :: 0 <= k && k < len(key) ==> key[k].Collate == old(key[k].Collate) && key[k].Desc == old(key[k].Desc)
 //@   loop 1 invariant 0 <= $i && $i <= len(indexes) && len(indexes) <= len(key)
 //@   loop 1 invariant forall k int :: 0 <= k && k < $i ==> 0 <= indexes[k] && indexes[k] < len(r) && key[k].V == r[indexes[k]] && key[k].Collate == old(key[k].Collate) && key[k].Desc == old(key[k].Desc)
 //@   loop 1 invariant forall k int :: $i <= k && k < len(key) ==> key[k] == old(key[k])
+//@   loop 1 invariant [flagskept] forall k int :: 0 <= k && k < len(key) ==> key[k].Collate == old(key[k].Collate) && key[k].Desc == old(key[k].Desc)
 //@   loop 1 decreases len(indexes) - $i
 
 // ---------------------------------------------------------------------------------------
@@ -410,13 +412,31 @@ package sqlittle
 //@   requires [worowid] schema.WithoutRowid
 //@   requires [locked] lk_shared
 //@   ghost-entry vianr = true
+//@   ghost-entry viaidx = false
+//@   ghost-exit viaidx = old(viaidx)
 //@   ensures-before-exit [c12] cbErr != nil ==> r0 != nil
 //@   ghost-exit vianr = old(vianr)
 
 //@ func sqlittle.indexedSelectNonRowid$1
-//@   trusted writes the parent's key slice (see above)
-//@   free-requires [pkflags] len(pk) == len(schema.PK) && (forall i int :: 0 <= i && i < len(pk) ==> (pk[i].Desc <==> schema.PK[i].SortOrder == 1))
+//@   free-requires !direct
+//@   creation-requires [pkflags] len(pk) == len(schema.PK) && (forall i int :: 0 <= i && i < len(pk) ==> (pk[i].Desc <==> schema.PK[i].SortOrder == 1))
 //@   implements functype db.RecordCB
+//@   frame-seam M:S_db_KeyCol the key slice pk written here (fresh from asDbKey in the parent) shares no memory with the key of the enclosing scan
+//@   uses index_tree index_sorted
+//@   free-requires cb != nil && tab != nil && CIS_OK(ci) && vianr && !viaidx && tree_of(tab.root) == tab.root
+//@   free-requires [samelen] len(cols) == len(pk)
+//@   closure-invariant [pkcoll] forall qk int :: 0 <= qk && qk < len(pk) ==> COLLFN(pk[qk]) != nil
+//@   ensures [latch] old(cbErr) != nil ==> cbErr != nil
+//@   ensures [reported] done ==> cbErr != nil
+//@   ghost-exit scan_ok = old(scan_ok)
+//@   ghost-exit halt = halt || done
+
+// the nested primary-key lookup keeps the first entry equal to the key and stops
+//@ func sqlittle.indexedSelectNonRowid$1$1
+//@   implements functype db.RecordCB
+//@   ensures [stops] done
+//@   ensures [kept] found == cbrec
+//@   ghost-exit halt = true
 
 //@ func sqlittle.indexedSelectEqNonRowid
 //@   ghost-entry scan_ok = true
@@ -434,13 +454,31 @@ package sqlittle
 //@   requires [locked] lk_shared
 //@   requires [key] KEYOK(key)
 //@   ghost-entry vianr = true
+//@   ghost-entry viaidx = false
+//@   ghost-exit viaidx = old(viaidx)
 //@   ensures-before-exit [c12] cbErr != nil ==> r0 != nil
 //@   ghost-exit vianr = old(vianr)
 
 //@ func sqlittle.indexedSelectEqNonRowid$1
-//@   trusted writes the parent's key slice (see above)
-//@   free-requires [pkflags] len(pk) == len(schema.PK) && (forall i int :: 0 <= i && i < len(pk) ==> (pk[i].Desc <==> schema.PK[i].SortOrder == 1))
+//@   free-requires !direct
+//@   creation-requires [pkflags] len(pk) == len(schema.PK) && (forall i int :: 0 <= i && i < len(pk) ==> (pk[i].Desc <==> schema.PK[i].SortOrder == 1))
 //@   implements functype db.RecordCB
+//@   frame-seam M:S_db_KeyCol the key slice pk written here (fresh from asDbKey in the parent) shares no memory with the key of the enclosing scan
+//@   uses index_tree index_sorted
+//@   free-requires cb != nil && tab != nil && CIS_OK(ci) && vianr && !viaidx && tree_of(tab.root) == tab.root
+//@   free-requires [samelen] len(cols) == len(pk)
+//@   closure-invariant [pkcoll] forall qk int :: 0 <= qk && qk < len(pk) ==> COLLFN(pk[qk]) != nil
+//@   ensures [latch] old(cbErr) != nil ==> cbErr != nil
+//@   ensures [reported] done ==> cbErr != nil
+//@   ghost-exit scan_ok = old(scan_ok)
+//@   ghost-exit halt = halt || done
+
+// the nested primary-key lookup keeps the first entry equal to the key and stops
+//@ func sqlittle.indexedSelectEqNonRowid$1$1
+//@   implements functype db.RecordCB
+//@   ensures [stops] done
+//@   ensures [kept] found == cbrec
+//@   ghost-exit halt = true
 
 // pkColumns (WITHOUT ROWID): positions of the primary-key columns inside an index row; key columns
 // SQLite appends to the index (primary-key columns the index does not name) are appended here too, so
